@@ -11,12 +11,12 @@ DECIDES = ('Decides that every peer-controlled length is compared with the trust
            'stream (liveness) is not decided.')
 RULES = {
     'R1': 'receive paths: every recv/recvmsg/memcpy into a caller-supplied buffer uses a length that is the capacity, a remainder of it, or a peer value cut by a comparison with the capacity',
-    'R2': 'the size reported to msg_process is cut by size >= sizeof(header), hdr->size >= sizeof(header) and hdr->size <= size (bytes received), and size itself by <= max_msg_size (explicitly, since a peek into the shared ring returns the length word the peer wrote)',
+    'R2': 'the size reported to msg_process is cut by size >= sizeof(header), hdr->size >= sizeof(header) and hdr->size <= size (bytes received), and size itself by <= max_msg_size (explicitly, since a peek into the shared ring returns the length word the peer wrote); the reported size is a local loaded from the header once, because on shared memory the header can change between two loads',
     'R3': 'handle_new_connection is reached only after the whole fixed-size record was received, credentials were obtained and hdr.id is AUTHENTICATE; every other edge closes the socket; the record is freed on every path',
     'R5': 'every send that reads from receive_buf uses a length bounded by its capacity (request.max_msg_size)',
     'R4': 'the capacity given to the receive slot is the allocation size of receive_buf; that size is at least what the receive path writes unconditionally (the header peek)',
 }
-FLOORS = {'R1': 6, 'R2': 4, 'R3': 5, 'R4': 3, 'R5': 1}
+FLOORS = {'R1': 6, 'R2': 5, 'R3': 5, 'R4': 3, 'R5': 1}
 
 
 def run(ctx):
@@ -190,6 +190,23 @@ def r2(ctx):
               'the received length is compared with max_msg_size before msg_process runs' if cut else 'every receive is bounded by max_msg_size',
               'the length taken from %s is never compared with the negotiated maximum: on shared memory it is the chunk length word the peer '
               'wrote into the ring, so msg_process can be told any size (2 GiB for 16 bytes written)' % (estr(unwrap(unb[0].rhs))[:60] if unb else '?'))
+    # with the shared-memory transport the header lies in the ring, which the client can write to while the server is looking at it:
+    # the size that is checked must be the size that is reported - a local that is loaded from the header once, not the header field
+    # itself (two loads of the field are two values)
+    sz_u = unwrap(ev.args[2])
+    shared_path = bool(list(f.calls('qb_ipcs_funcs::peek')) or any(st.rhs is not None and callee_of(unwrap(st.rhs)) == 'qb_ipcs_funcs::peek' for st in f.events('STORE')))
+    once = True
+    if shared_path:
+        if sz_u.get('k') != 'var' or sz_u.get('sc') != 'l':
+            once = False
+        else:
+            ds = [st for st in f.events() if (st.kind == 'STORE' and estr(st.lhs) == sz_u['n'] and cval(unwrap(st.rhs)) is None) or
+                  (st.kind == 'DECL' and st.d['var'] == sz_u['n'] and 'init' in st.d and cval(unwrap(st.d['init'])) is None)]
+            once = len(ds) == 1 and not any(f.may_follow(ds[0], ds[0]) for _ in (0,))
+    ctx.check('R2', 'reported-size-is-the-checked-value', once, ev,
+              'the reported size is a local loaded from the header once',
+              'msg_process is told %s, read from the request header again after the checks: on shared memory the header lies in the ring the client writes, a client '
+              'thread flipping the word between 64 and 0x40000000 gets the server to check the one and report the other' % estr(ev.args[2]))
     ctx.check('R2', 'header-received-before-use', f.uncut_path(ev, got_header) is None, ev, 'msg_process runs only when a whole header was received',
               'msg_process can run on fewer bytes than a request header (stale buffer contents are interpreted)')
 
